@@ -337,6 +337,20 @@ def _counter_incs(body):
     return out
 
 
+def _counter_writes(body, prefix="count_"):
+    """(bb, si, name) of every store into a place whose user-level name starts with `prefix` (any amount)"""
+    out = []
+    for bi, b in enumerate(body.blocks):
+        if b["cleanup"]:
+            continue
+        for si, st in enumerate(b["stmts"]):
+            if st["k"] == "assign":
+                nm = body.place_name(st["lhs"])
+                if nm.startswith(prefix):
+                    out.append((bi, si, nm))
+    return out
+
+
 def _bin_left_place(body, st):
     """for `X = move (_t.0)` with `_t = AddWithOverflow(copy P, 1)`: P"""
     rv = st["rv"]
